@@ -44,7 +44,7 @@ use std::{
     collections::BTreeMap,
     future::Future,
     pin::Pin,
-    sync::{Arc, Mutex},
+    sync::Arc,
 };
 
 use n0_error::{AnyError, e, stack_error};
@@ -52,6 +52,7 @@ use n0_future::{
     join_all,
     task::{self, AbortOnDropHandle, JoinSet},
 };
+use tokio::sync::Mutex;
 use tokio_util::sync::CancellationToken;
 use tracing::{Instrument, debug, error, field::Empty, info_span, trace, warn};
 
@@ -97,6 +98,8 @@ use crate::{
 pub struct Router {
     endpoint: Endpoint,
     // `Router` needs to be `Clone + Send`, and we need to `task.await` in its `shutdown()` impl.
+    // This is an async mutex: it is held while awaiting the task, so that concurrent
+    // `shutdown()` calls on other clones wait for the task to terminate as well.
     task: Arc<Mutex<Option<AbortOnDropHandle<()>>>>,
     cancel_token: CancellationToken,
 }
@@ -427,18 +430,17 @@ impl Router {
     /// If some [`ProtocolHandler`] panicked in the accept loop, this will propagate
     /// that panic into the result here.
     pub async fn shutdown(&self) -> Result<(), n0_future::task::JoinError> {
-        if self.is_shutdown() {
-            return Ok(());
-        }
-
         // Trigger shutdown of the main run task by activating the cancel token.
         self.cancel_token.cancel();
 
         // Wait for the main task to terminate.
-
-        // MutexGuard is not held across await point
-        let task = self.task.lock().expect("poisoned").take();
-        if let Some(task) = task {
+        //
+        // The token being cancelled does not mean that the run task has finished shutting
+        // down, so there is no early return here. The lock is held across the await point:
+        // a concurrent call on another clone waits here until the task has terminated, and
+        // finds the slot empty afterwards.
+        let mut task = self.task.lock().await;
+        if let Some(task) = task.take() {
             task.await?;
         }
 
